@@ -218,15 +218,17 @@ def note_triple(cls, le, machine, n):
     raise ValueError(k)
 
 
-def enc_note(le, name, ntype, desc):
+def enc_note(le, name, ntype, desc, fill=0):
+    # fill: value of the padding bytes behind the name's terminator and behind the descriptor (the gABI counts neither in n_namesz /
+    # n_descsz and does not say what they hold; consumers take the name up to its terminator)
     if name is None:
         nm = b''
     else:
         assert b'\0' not in name
         nm = name + b'\0'
     out = struct.pack(E(le) + 'III', len(nm), len(desc), ntype)
-    out += nm + b'\0' * (-len(nm) % 4)
-    out += desc + b'\0' * (-len(desc) % 4)
+    out += nm + bytes([fill]) * (-len(nm) % 4)
+    out += desc + bytes([fill]) * (-len(desc) % 4)
     return out
 
 
@@ -256,7 +258,7 @@ def expected_notes(case):
     blob = b''
     for n in case['notes']:
         name, ntype, desc = note_triple(cls, le, machine, n)
-        enc = enc_note(le, name, ntype, desc)
+        enc = enc_note(le, name, ntype, desc, case.get('padfill', 0))
         namesz = 0 if name is None else len(name) + 1
         out.append({'m': n, 'name': name, 'namesz': namesz, 'type': ntype, 'desc': desc, 'rel': len(blob),
                     'size': 12 + pad4(namesz) + pad4(len(desc)), 'treat': treatment(core, name, ntype, n['k'])})
@@ -879,6 +881,8 @@ def build_case(ch, tier):
         notes.append({'k': 'raw', 'name': None, 'type': ch.choice(TYPE_POOL), 'desc': b''})
     case = {'cls': cls, 'le': le, 'e_type': e_type, 'e_machine': machine, 'view': ch.choice(['sec', 'seg', 'both', 'both']),
             'notes': notes, 'stabs': gen_stabs(ch) if ch.int(0, 3) == 0 else None, 'lay': gen_layout(ch, cls)}
+    if ch.int(0, 3) == 0:
+        case['padfill'] = ch.choice([0xaa, 0xff, 0x41, 1])
     finish_psinfo(ch, case)
     return case
 
@@ -930,6 +934,8 @@ def _mk(cls, le, core, view, notes, machine=None, stabs=None, lay=None, e_type=N
     case = {'cls': cls, 'le': le, 'e_type': (ET_CORE if core else 2) if e_type is None else e_type, 'e_machine': machine,
             'view': view, 'notes': notes, 'stabs': stabs, 'lay': lay or {'gap4': 1, 'at_end': False, 'tail': 3, 'p_vaddr': 0x1234,
                                                                          'p_memsz': 1, 'addr': 0x400100}}
+    if (len(notes) + cls // 32 + le + core) % 3 == 0:
+        case['padfill'] = (0xaa, 0x41, 0xff)[len(notes) % 3]
     if ch is not None:
         finish_psinfo(ch, case)
     return case
